@@ -209,6 +209,7 @@ func expMask(f *numKind) uint64 {
 
 func TestC07(t *testing.T) {
 	stats.Property = "C07"
+	replayRegressions(t, "C07")
 	stats.Rule = "exhaustive walks in value order of every value of the 8/16-bit types (quick) and of uint32/int32/float32 (thorough, sharded), consecutive-value sweeps of 2^16 (quick) / 2^20 (thorough) values around every boundary of the 32/64-bit types, all NaN patterns (sampled for float64), rapid-generated pairs biased to boundaries/neighbours/sign flips, and rapid-generated 2..4-field tuples; " +
 		"each adjacent pair / generated pair is checked for fixed length, bit-exact round trip and sign(bytes.Compare(enc x, enc y)) == sign(native compare x,y); non-trivial = a pair with x != y (every adjacent pair of a walk is one); distinct by value pair"
 	thorough := *flagTier == "thorough"
